@@ -1,6 +1,11 @@
 package main
 
-import "strings"
+import (
+	"path/filepath"
+	"strconv"
+	"strings"
+	"time"
+)
 
 // Engine family: C01 C03 C04 C09 C11 (specification: Terms.tla, Engine.tla; generators Gen*.tla; trace spec EngineTrace.tla).
 
@@ -79,4 +84,66 @@ func init() {
 			c.exhaustive = true
 		},
 	}
+	plans["C11"] = &plan{
+		level: "model_checking",
+		rule: "TLC enumerates every fact table r/3 of NR rows drawn from 6 rows (ground, with variables, variants of each other) x {findall, bagof, setof} x 6 templates x 9 goals " +
+			"(with/without ^, conjunction, disjunction, failing goal) x 5 instance arguments, plus nested calls; Engine.tla computes the answers (free variables per ISO 7.1.1.4, " +
+			"grouping by variant witness, witness unification, sorted duplicate-free lists for setof; NoLeak checked on every transition) and the real interpreter must give the same answers. " +
+			"Group order is compared as a multiset (left open by the property). distinct_nontrivial = distinct (table, call) pairs with at least one solution",
+		assume:  []string{"cases whose setof order hinges on the order of two distinct unbound variables are discarded (counted)", "group order is not compared"},
+		trusted: []string{"TLC", "Engine.tla as the reference semantics", "harness renderer/canonicaliser (jt)"},
+		run: func(c *checkCtx) {
+			r := c.mcHolds("GenBag", "GenBag_"+c.tier+".cfg", tlcOpts{})
+			if r.ncases == 0 {
+				infra("GenBag produced no cases")
+			}
+			cases, results := c.replay("engine", r.cases, replayOpts{})
+			c.judge("engine", cases, results, func(cs, res map[string]J) string {
+				if evs, _ := cs["events"].([]J); len(evs) > 1 {
+					in, _ := res["input"].(string)
+					return in
+				}
+				return ""
+			})
+			c.exhaustive = true
+		},
+	}
+	plans["C01"] = &plan{
+		level: "model_checking",
+		rule: "(U3) seeded random programs (2-5 predicates of arity 0-3, nested compound/list/partial-list arguments, shared and repeated variables, direct and mutual recursion, " +
+			"conjunction, nested and top-level disjunction, call/N with partial goals, \\+, findall, if-then-else, once) are run on the real interpreter with the call hook on; every recorded " +
+			"event sequence (call ports, answers as binding vectors, end) is validated line by line by TLC against EngineTrace.tla, one TLC state per event. (U2) GenProg: every program over " +
+			"a clause pool for p/1, q/1, r/2 x queries is enumerated by TLC and replayed. distinct_nontrivial = distinct programs whose trace has more than two events",
+		assume:  []string{"runs whose reference execution creates a cyclic term (ISO: undefined) or exceeds the step budget are discarded and counted", "first 8 answers, then Close"},
+		trusted: []string{"TLC", "Engine.tla as the reference semantics", "harness renderer/canonicaliser (jt)", "Go-side program generator produces inputs only"},
+		run: func(c *checkCtx) {
+			g := c.mcHolds("GenProg", "GenProg_"+c.tier+".cfg", tlcOpts{})
+			if g.ncases == 0 {
+				infra("GenProg produced no cases")
+			}
+			cases, results := c.replay("engine", g.cases, replayOpts{})
+			c.judge("engine", cases, results, func(cs, res map[string]J) string {
+				if evs, _ := cs["events"].([]J); len(evs) > 2 {
+					in, _ := res["input"].(string)
+					return in
+				}
+				return ""
+			})
+			n := 1200
+			if c.tier == "thorough" {
+				n = 20000
+			}
+			c.engineTV(n, "")
+		},
+	}
+}
+
+// engineTV: U3 for the engine family with the given generator features.
+func (c *checkCtx) engineTV(n int, feat string) {
+	gen := filepath.Join(c.work, "tv-"+feat+".ndjson")
+	c.vhRun("gen", "engine", "--seed", strconv.FormatInt(c.seed, 10), "--n", strconv.Itoa(n), "--out", gen, "--opt", "feat="+feat)
+	traces := c.recordTraces("engine", gen, replayOpts{timeout: 8 * time.Second}, func(cs map[string]J) map[string]J {
+		return map[string]J{"db": cs["db"], "query": cs["query"], "qv": cs["qv"], "nv": cs["nv"]}
+	})
+	c.validateTraces("engine", "EngineTrace", "EngineTrace.cfg", traces, traceOpts{})
 }
